@@ -2102,7 +2102,71 @@ impl<'a> Sim<'a> {
                 class = "group-order".to_string();
             }
             ByzOp::Oversize => {
-                return None; // constructed in a later revision
+                // everything valid (signatures, nonces, funds, group order, recomputed
+                // commitments) except that the block carries more than 256 000 bytes of sequenced data
+                use astria_core::sequencerblock::v1::{
+                    block::RollupData,
+                    DataItem,
+                };
+                let mut signers_in_block = BTreeSet::new();
+                for raw in &txs[injected..] {
+                    let tx = decode_tx(raw).ok()?;
+                    signers_in_block.insert(*tx.address_bytes());
+                    if tx.actions().iter().any(|a| matches!(a, Action::BridgeLock(_) | Action::BridgeTransfer(_) | Action::Ibc(_))) {
+                        return None; // deposits would enter the commitment
+                    }
+                }
+                let fee_asset = (0..N_ASSETS).map(denom).find(|d| self.model.fee_assets.contains(&asset_id(d)))?;
+                let (base, mult) = self.model.fees.get("RollupDataSubmission").copied().flatten()?;
+                let per_tx = mult.checked_mul(60_000)?.checked_add(base)?;
+                let need = per_tx.checked_mul(5)?;
+                let who = (0..self.cfg.n_accounts).find(|i| {
+                    let a = self.keys.addr(*i);
+                    !signers_in_block.contains(&a) && !self.model.bridges.contains_key(&a) && self.model.bal(&a, &asset_id(&fee_asset)) >= need
+                })?;
+                let key = self.keys.key(who).clone();
+                let nonce0 = self.ledger.nonces.get(&self.keys.addr(who)).copied().unwrap_or(0);
+                let mut extra = Vec::new();
+                let n_extra: u32 = std::env::var("VERIF_OVERSIZE_N").ok().and_then(|v| v.parse().ok()).unwrap_or(5);
+                for k in 0..n_extra {
+                    let body = TransactionBody::builder()
+                        .actions(vec![Action::RollupDataSubmission(act::RollupDataSubmission {
+                            rollup_id: world::rollup_id(0),
+                            data: Bytes::from(vec![k as u8; 60_000]),
+                            fee_asset: fee_asset.clone(),
+                        })])
+                        .chain_id(CHAIN_ID)
+                        .nonce(nonce0 + k)
+                        .try_build()
+                        .ok()?;
+                    extra.push(Bytes::from(body.sign(&key).into_raw().encode_to_vec()));
+                }
+                let mut user: Vec<Bytes> = extra;
+                user.extend(txs[injected..].iter().cloned());
+                // recompute both commitments over the new transaction list
+                let mut by_rollup: indexmap::IndexMap<astria_core::primitive::v1::RollupId, Vec<Bytes>> = indexmap::IndexMap::new();
+                for raw in &user {
+                    let tx = decode_tx(raw).ok()?;
+                    for a in tx.actions() {
+                        if let Action::RollupDataSubmission(r) = a {
+                            by_rollup.entry(r.rollup_id).or_default().push(RollupData::SequencedData(r.data.clone()).into_raw().encode_to_vec().into());
+                        }
+                    }
+                }
+                by_rollup.sort_unstable_keys();
+                let ids_root = merkle::Tree::from_leaves(by_rollup.keys()).root();
+                let datas_root = astria_core::primitive::v1::derive_merkle_tree_from_rollup_txs(&by_rollup).root();
+                let uses_items = self.cfg.aspen.is_some_and(|a| h >= a);
+                let (c0, c1): (Bytes, Bytes) = if uses_items {
+                    (DataItem::RollupTransactionsRoot(datas_root).encode(), DataItem::RollupIdsRoot(ids_root).encode())
+                } else {
+                    (datas_root.to_vec().into(), ids_root.to_vec().into())
+                };
+                let mut out = vec![c0, c1];
+                out.extend(txs[2..injected].iter().cloned());
+                out.extend(user);
+                txs = out;
+                class = "oversize-sequenced-data".to_string();
             }
             ByzOp::DropDataItem(k) => {
                 let i = (*k as usize) % injected;
